@@ -7,24 +7,51 @@ EXTENDS Wild, TLC, Json, IOUtils
 
 Rec == ndJsonDeserialize(IOEnv.TRACE)
 VARIABLE l
-tvars == <<ph, gc, sm, smCount, faulted, l>>
+tvars == <<ph, gc, sm, smCount, res, resCount, faulted, l>>
 
-Boundary == {"Phase", "ScopeBegin", "ScopeEnd", "SecBegin", "SecEnd", "Fault"}
+Boundary == {"Phase", "ScopeBegin", "ScopeEnd", "SecBegin", "SecEnd", "ResBegin", "ResEnd", "Fault", "Exit"}
+(* Containment: the events of a protocol are emitted by tasks of that protocol's scope, which joins them
+   before its end event is emitted, and lines are written under one mutex - so in the file every such
+   event lies between the scope's boundary events.  ("Take" is an event name of two protocols, told apart
+   by its fields; "Load" also happens for the initial objects before the resolution scope opens and "Err"
+   outside the traversal, so neither is constrained.) *)
+GcEvents == {"ActBegin", "ActEnd", "DelayPush", "ActDec", "DelayPop", "Send", "SendLocal", "Item", "Fail",
+             "SlotPark", "SlotSwap", "TaskStart"}
+SmEvents == {"Reserve", "ReserveFail", "ReserveCasFail", "LoopExitEmpty", "SplitStart", "SplitGroup",
+             "Unreserve", "BucketSpawn", "BucketStart", "Park", "ReturnVec", "Advance", "BucketDone"}
+ResEvents == {"Peek", "Request"}
+Contained(e) ==
+    /\ e.ev \in GcEvents => gc = "open"
+    /\ (e.ev \in SmEvents \/ (e.ev = "Take" /\ "b" \in DOMAIN e)) => sm = "open"
+    /\ e.ev = "Swap" => \/ sm = "open"       \* create_split_resources parks the empty buckets of input group 0 before the scope opens
+                         \/ (InLayout /\ e.g = 0 /\ e.prev = "E" /\ e.new = "W")
+    /\ (e.ev \in ResEvents \/ (e.ev = "Take" /\ "won" \in DOMAIN e)) => res = "open"
 Ev == Rec[l]
 Step == l <= Len(Rec) /\ l' = l + 1
 
 TInit == WInit /\ l = 1 /\ TLCSet(1, 1)
-TSkip == Step /\ Ev.ev \notin Boundary /\ UNCHANGED wvars
+TSkip == Step /\ Ev.ev \notin Boundary /\ Contained(Ev) /\ UNCHANGED wvars
 TPhase == Step /\ Ev.ev = "Phase" /\ IsPhase(Ev.name) /\ (Reach(Ev.name) \/ ReachAfterError(Ev.name))
+(* an error of the link itself is not announced by any event: it is inferred (silent step composed with the
+   next phase event, which can then only be `verified`) *)
+TPhaseAfterLinkError ==
+    /\ Step /\ Ev.ev = "Phase" /\ Ev.name = "verified"
+    /\ faulted = "no" /\ ph < Idx("verified") /\ gc # "open" /\ sm = "closed" /\ res # "open"
+    /\ faulted' = "silent" /\ ph' = Idx("verified")
+    /\ UNCHANGED <<gc, sm, smCount, res, resCount>>
+(* the harness appends the exit status it observed as a last pseudo-event *)
+TExit == Step /\ Ev.ev = "Exit" /\ SuccessMeansFinished(Ev.rc) /\ UNCHANGED wvars
 TGcBegin == Step /\ Ev.ev = "ScopeBegin" /\ GcBegin
 TGcEnd == Step /\ Ev.ev = "ScopeEnd" /\ GcEnd
 TSmBegin == Step /\ Ev.ev = "SecBegin" /\ SmBegin
 TSmEnd == Step /\ Ev.ev = "SecEnd" /\ SmEnd
+TResBegin == Step /\ Ev.ev = "ResBegin" /\ ResBegin
+TResEnd == Step /\ Ev.ev = "ResEnd" /\ ResEnd
 TFault == Step /\ Ev.ev = "Fault" /\ IsPhase(Ev.point) /\ Fault(Ev.point, Ev.kind)
 
-TNext == TSkip \/ TPhase \/ TGcBegin \/ TGcEnd \/ TSmBegin \/ TSmEnd \/ TFault
+TNext == TSkip \/ TPhase \/ TGcBegin \/ TGcEnd \/ TSmBegin \/ TSmEnd \/ TResBegin \/ TResEnd \/ TFault \/ TPhaseAfterLinkError \/ TExit
 TSpec == TInit /\ [][TNext]_tvars
-TInv == ScopesInsideLayout /\ GcBeforeWrite
+TInv == ScopesInsideLayout /\ GcBeforeWrite /\ ResInsideResolve /\ ResolvedBeforeLayout
 TProgress == TLCSet(1, IF TLCGet(1) < l THEN l ELSE TLCGet(1))
 TAccepted ==
     LET best == TLCGet(1) IN
